@@ -41,7 +41,8 @@ def run(ctx):
     with open(pf, "w") as f:
         for e in ents:
             f.write(jdfgen.to_json(e["prog"]) + "\n")
-    r = ctx.tlc_check("PTG", "KeyModel", "KeyModel.cfg", workers=1, env={"PROGS": pf}, timeout=1500, heap="4g")
+    r = ctx.tlc_check("PTG", "KeyModel", "KeyModel.cfg", workers=1, env={"PROGS": pf}, timeout=1500, heap="4g",
+                      jvm=ptgrun.JVM_SHORT)
     model = {}
     for line in r.printed:
         h = tlc._parse_tla_string_list(line)
